@@ -307,4 +307,53 @@ theorem lex_block_comment (body : List Nat) (hb : 42 ∉ body) (t : List Nat) :
   rw [skipBlock_body body hb t]
   exact (lex_eq_lexN t _ (by simp; omega)).symm
 
+/-- no `*/` (42 47) at any two adjacent positions of a comment body -/
+def NoClose : List Nat → Bool
+  | [] => true
+  | [_] => true
+  | a :: b :: r => !(a == 42 && b == 47) && NoClose (b :: r)
+
+theorem noClose_of_no_star (body : List Nat) (hb : 42 ∉ body) : NoClose body = true := by
+  induction body with
+  | nil => rfl
+  | cons c r ih =>
+    have hc : (c == 42) = false := by
+      have : c ≠ 42 := fun h => hb (by simp [h])
+      simpa using this
+    cases r with
+    | nil => rfl
+    | cons d r' =>
+      simp only [NoClose, hc, Bool.false_and, Bool.not_false, Bool.true_and]
+      exact ih (fun h => hb (by simp only [List.mem_cons] at h ⊢; exact Or.inr h))
+
+/-- the skipper stops at the FIRST `*/` after the opener, whatever else the body holds (stars,
+slashes, `/*`, a body ending in a star, a body starting with a slash) -/
+theorem skipBlock_body_general (body : List Nat) (hb : NoClose body = true) (t : List Nat) :
+    skipBlock (body ++ 42 :: 47 :: t) = t := by
+  induction body with
+  | nil => simp [skipBlock]
+  | cons c r ih =>
+    cases r with
+    | nil =>
+      have h47 : ((42 : Nat) == 47) = false := by decide
+      simp [skipBlock, h47]
+    | cons d r' =>
+      simp only [NoClose, Bool.and_eq_true, Bool.not_eq_true'] at hb
+      have ih' := ih hb.2
+      simp only [List.cons_append, skipBlock, hb.1, Bool.false_eq_true, if_false]
+      simpa using ih'
+
+/-- a leading `/* … */` comment whose body holds no `*/` is invisible -/
+theorem lex_block_comment_general (body : List Nat) (hb : NoClose body = true) (t : List Nat) :
+    lex (47 :: 42 :: (body ++ 42 :: 47 :: t)) = lex t := by
+  unfold lex
+  rw [lexN]
+  have hs : isSpace 47 = false := by decide
+  have h1 : ((47 : Nat) == 239) = false := by decide
+  have h2 : ((47 : Nat) == 45) = false := by decide
+  simp only [hs, h1, h2, Bool.false_eq_true, if_false, Bool.false_and, List.head?_cons,
+    beq_self_eq_true, Bool.and_self, if_true, List.drop_succ_cons, List.drop_zero]
+  rw [skipBlock_body_general body hb t]
+  exact (lex_eq_lexN t _ (by simp; omega)).symm
+
 end RqModel.Pragma
